@@ -35,6 +35,13 @@ CHECKS = {
 NOT_YET = {}
 
 
+_B = '; executions recorded from the real classes (random histories and the repository\'s own tests) validated by TLC against %s'
+TRACE = {'C01': _B % 'WorldTrace.tla', 'C02': _B % 'WorldTrace.tla', 'C05': _B % 'WorldTrace.tla', 'C07': _B % 'WorldTrace.tla',
+         'C03': _B % 'DispatcherTrace.tla', 'C04': _B % 'DispatcherTrace.tla', 'C10': _B % 'DispatcherTrace.tla',
+         'C08': _B % 'CoroutinesTrace.tla', 'C09': _B % 'CoroutinesTrace.tla',
+         'C13': '; long behaviours from tlc -simulate on LoopSim.tla replayed as well',
+         'C14': '; long behaviours from tlc -simulate on LoopSim.tla replayed as well'}
+
 def main():
     checks = []
     for pid, (spec, text, ref) in sorted(CHECKS.items()):
@@ -47,7 +54,8 @@ def main():
             'engine': 'tlc+replay',
             'level_claimed': {'category': LEVELS.get(pid, 'model_checking'), 'text': text, 'design_ref': 'DESIGN.md section ' + ref},
             'level_note': TRUSTED,
-            'technique': 'TLA+ specification (%s) model-checked with TLC; specification behaviours replayed into the real classes (conformance)' % spec,
+            'technique': 'TLA+ specification (%s) model-checked with TLC; specification behaviours replayed into the real classes (conformance)%s' % (
+                spec, TRACE.get(pid, '')),
         })
     props = [json.loads(l)['id'] for l in open(os.path.join(VERIF, 'properties.jsonl'))]
     na = [{'property_id': p, 'reason': NOT_YET.get(p, 'check under construction in this session: specification module not yet bound to the code; no claim is made until it is')}
